@@ -786,6 +786,30 @@ vpn-group-policy VPN-group-DRC-0
 =NETSPOC=[[input]]
 =OUTPUT=NONE
 
+=TITLE=Leave manually configured webvpn block of username unchanged
+=DEVICE=
+access-list split-tunnel standard permit 10.2.42.0 255.255.255.224
+access-list vpn-filter extended permit ip host 10.1.1.67 10.2.42.0 255.255.255.224
+access-list vpn-filter extended deny ip any4 any4
+group-policy VPN-group internal
+group-policy VPN-group attributes
+ banner value Willkommen!
+ dns-server 10.1.2.3 10.44.55.66
+ anyconnect-custom perapp value SomeName
+ split-tunnel-network-list value split-tunnel
+ split-tunnel-policy tunnelspecified
+ vpn-idle-timeout 60
+username jon.doe@token.example.com nopassword
+username jon.doe@token.example.com attributes
+ vpn-framed-ip-address 10.1.1.67 255.255.254.0
+ service-type remote-access
+ webvpn
+  anyconnect keep-installer installed
+ vpn-filter value vpn-filter
+ vpn-group-policy VPN-group
+=NETSPOC=[[input]]
+=OUTPUT=NONE
+
 =TITLE=Leave local user with password unchanged
 =DEVICE=
 username admin password $sha512$5000$abc pbkdf2 privilege 15
